@@ -218,7 +218,8 @@ func vfC01_Tunnel() {
 	}
 	wt.out = nil
 	if path == 1 {
-		src := &vfReader{data: append(append([]byte{}, b1...), b2...), frags: 1, tag: "W"}
+		// the source may report end-of-stream together with its last bytes or on a separate read
+		src := &vfReader{data: append(append([]byte{}, b1...), b2...), frags: 1, tag: "W", eofWithData: vfBool("eofWithData")}
 		n, err := wr.(interface {
 			ReadFrom(r vfIOReader) (int64, error)
 		}).ReadFrom(src)
